@@ -210,7 +210,7 @@ Qed.
 
 Lemma diff_listeners_common_self k m : diff_listeners_common k m m = [].
 Proof.
-  unfold diff_listeners_common. apply flat_map_nil. intros [ad l] Hin. cbn [fst snd].
+  unfold diff_listeners_common. apply flat_map_nil. intros [ad l] Hin. unfold common_chunk. cbn [fst snd].
   rewrite (In_map_to_list _ _ _ Hin). rewrite bool_decide_eq_true_2 by reflexivity.
   destruct (l_active l); reflexivity.
 Qed.
